@@ -9,7 +9,7 @@ CONSTANTS
   UnlinkOps <- Unlink3
   KillOps = {"p", "c"}
   DrainOps = {"c", "g"}
-  MaxEnv = 2
+  MaxEnv = 3
   AllowDev = FALSE
 INVARIANTS
   TypeOK TwoSided StoppedIsolated SubtreeSignalled RacingLink SubtreeDies NoDeviation
